@@ -209,3 +209,11 @@ Proof.
   split; [exact ex8_frag2|]. split; [reflexivity|]. split; [exact ex8_nkeys|]. split; [exact ex8_nacc|].
   split; [exact ex8_nvalid | exact ex8_acount].
 Qed.
+
+(** a derived factor of [act_design] outside the sampled crossing: 24 keys, 12 accepted = 12 valid sequences *)
+Example C06_example_uncrossed_derived :
+  frag2 ex9_flat = true /\ length (keys_of ex9_flat) = 24 /\ length (accepted_keys ex9_flat) = 12 /\
+  length (all_valid (code_sem ex9_flat)) = 12 /\ check_accepted_count ex9_flat = true.
+Proof.
+  split; [exact ex9_frag2|]. split; [exact ex9_nkeys|]. split; [exact ex9_nacc|]. split; [exact ex9_nvalid | exact ex9_acount].
+Qed.
